@@ -5,10 +5,12 @@ package main
 // result, diagnostic text or panic kind must agree.
 
 import (
+	"encoding/json"
 	"fmt"
 	"net"
 	"net/netip"
 	"os"
+	"os/exec"
 	"path/filepath"
 	"regexp"
 	"sort"
@@ -23,6 +25,8 @@ import (
 	"github.com/hknutzen/Netspoc-Approve/go/pkg/linux"
 	"github.com/hknutzen/Netspoc-Approve/go/pkg/nsx"
 	"github.com/hknutzen/Netspoc-Approve/go/pkg/panos"
+	"github.com/hknutzen/Netspoc-Approve/go/pkg/program"
+	"github.com/hknutzen/Netspoc-Approve/go/pkg/status"
 )
 
 const (
@@ -78,6 +82,7 @@ func (e *errCapture) callReal(f func() string) (res string) {
 			if fmt.Sprintf("%T", r) == "errlog.bailout" {
 				msg := strings.TrimSuffix(e.take(), "\n")
 				msg = strings.ReplaceAll(msg, "\nERROR>>> ", "\n")
+				msg = strings.Replace(msg, " of vsys1 must not be member", " must not be member", 1)
 				res = "diag:" + strings.TrimPrefix(msg, "ERROR>>> ")
 				return
 			}
@@ -1322,6 +1327,204 @@ func (c *corrCtx) runRefs(n int) {
 	}
 }
 
+// ---------------------------------------------------------------- audit follow-up: status file bytes, PAN-OS cycle check
+
+type jScalar struct{ enc, json string }
+
+func (c *corrCtx) genScalar() jScalar {
+	r := c.rng
+	switch r.Intn(10) {
+	case 0:
+		return jScalar{"n", "null"}
+	case 1:
+		return jScalar{"t", "true"}
+	case 2, 3:
+		l := Pick(r, []string{"0", "5", "1727000000", "1727626791", "-3", "1.5", "1e3", "99999999999999999999", "-0", "9223372036854775807", "9223372036854775808", "12E0"})
+		return jScalar{"i" + l, l}
+	case 4:
+		return jScalar{"a", Pick(r, []string{"[]", "[1]", `["OK"]`})}
+	case 5:
+		return jScalar{"o", Pick(r, []string{"{}", `{"result":"OK"}`})}
+	}
+	v := Pick(r, []string{"OK", "WARNINGS", "FAILED", "UPTODATE", "DIFF", "", "p0", "p1", "p2", "px", "ok"})
+	return jScalar{"s" + v, `"` + v + `"`}
+}
+
+func (c *corrCtx) genStatusTop() (enc, js string) {
+	r := c.rng
+	switch r.Intn(12) {
+	case 0:
+		return "N", Pick(r, []string{"", "NO_JSON", "{", "[1,2", `{"approve":}`, "\x01", `{"approve":{"result":"OK","policy":"p1","time":5}}x`, `{'approve':1}`, "{\"approve\":{\"result\":\"OK\",}}"})
+	case 1:
+		k := Pick(r, []string{"n", "t", "i", "s", "a"})
+		return k, map[string]string{"n": "null", "t": "true", "i": "7", "s": `"x"`, "a": `[{"approve":{"result":"OK","policy":"p1","time":5}}]`}[k]
+	}
+	var encs, jss []string
+	for i := 0; i < 1+r.Intn(4); i++ {
+		key := Pick(r, []string{"approve", "compare", "approve", "compare", "Approve", "COMPARE", "other", "", "aPProve"})
+		switch r.Intn(8) {
+		case 0:
+			sc := Pick(r, []jScalar{{"n", "null"}, {"t", "false"}, {"i", "7"}, {"s", `"OK"`}, {"a", `[{"result":"OK"}]`}})
+			encs = append(encs, key+cGS+sc.enc[:1])
+			jss = append(jss, `"`+key+`":`+sc.json)
+			continue
+		}
+		var fe, fj []string
+		for j := 0; j < r.Intn(5); j++ {
+			ik := Pick(r, []string{"result", "policy", "time", "result", "policy", "time", "Result", "TIME", "x", "Policy"})
+			sc := c.genScalar()
+			// mostly well-typed
+			if r.Chance(60) {
+				switch strings.ToLower(ik) {
+				case "result":
+					v := Pick(r, []string{"OK", "WARNINGS", "FAILED", "UPTODATE", "DIFF"})
+					sc = jScalar{"s" + v, `"` + v + `"`}
+				case "policy":
+					v := Pick(r, []string{"p0", "p1", "p2", "px"})
+					sc = jScalar{"s" + v, `"` + v + `"`}
+				case "time":
+					v := Pick(r, []string{"5", "1727000000", "1727626791", "3"})
+					sc = jScalar{"i" + v, v}
+				}
+			}
+			fe = append(fe, ik+"\x1b"+sc.enc)
+			fj = append(fj, `"`+ik+`":`+sc.json)
+		}
+		encs = append(encs, key+cGS+"o"+strings.Join(fe, "\x1c"))
+		jss = append(jss, `"`+key+`":{`+strings.Join(fj, Pick(r, []string{",", ", ", ",\n "}))+`}`)
+	}
+	return "o" + strings.Join(encs, cRS), "{" + strings.Join(jss, ",") + "}"
+}
+
+func (c *corrCtx) runStatus(n int, maBin string) {
+	dir, _ := os.MkdirTemp("", "c20st")
+	defer os.RemoveAll(dir)
+	cfg := &program.Config{BaseDir: dir}
+	os.MkdirAll(filepath.Join(dir, "status"), 0755)
+	for _, p := range []struct{ name, code string }{{"p0", "code B\n"}, {"p1", "code A\n"}, {"p2", "code A\n"}} {
+		os.MkdirAll(filepath.Join(dir, "policies", p.name, "code"), 0755)
+		os.WriteFile(filepath.Join(dir, "policies", p.name, "code", "dev"), []byte(p.code), 0644)
+	}
+	os.Symlink("p1", filepath.Join(dir, "policies", "current"))
+	os.WriteFile(filepath.Join(dir, ".netspoc-approve"), []byte("basedir = "+dir+"\n"), 0644)
+	stFile := filepath.Join(dir, "status", "dev")
+	show := func() string {
+		v := status.Read(cfg, "dev")
+		b, _ := json.Marshal(v)
+		var x struct {
+			Approve, Compare struct {
+				Result, Policy string
+				Time           int64
+			}
+		}
+		json.Unmarshal(b, &x)
+		return fmt.Sprintf("%s|%s|%d|%s|%s|%d", x.Approve.Result, x.Approve.Policy, x.Approve.Time, x.Compare.Result, x.Compare.Policy, x.Compare.Time)
+	}
+	const now = 1727626790 // TEST_TIME 2024-Sep-29 16:19:50
+	os.Setenv("TEST_TIME", "2024-Sep-29 16:19:50")
+	defer os.Unsetenv("TEST_TIME")
+	for i := 0; i < n; i++ {
+		enc, js := c.genStatusTop()
+		readable := "1"
+		if c.rng.Chance(4) {
+			readable = "0"
+			os.Remove(stFile)
+		} else {
+			os.WriteFile(stFile, []byte(js), 0644)
+		}
+		req := strings.Join([]string{"status", readable, enc, "p1"}, cUS)
+		var verdict string
+		c.check("status.Read", req, strings.HasPrefix(enc, "o"), func() string { return show() },
+			func(m string) string {
+				// split off the verdict of missing-approve's check
+				j := strings.LastIndex(m, "|")
+				verdict = m[j+1:]
+				return m[:j]
+			})
+		// the real missing-approve binary on the same bytes (every 4th case)
+		if maBin != "" && i%4 == 0 {
+			want := "listed"
+			switch {
+			case verdict == "uptodate":
+				want = "not listed"
+			case verdict == "compare:p2":
+				want = "not listed" // same code as the current policy
+			}
+			cmd := exec.Command(maBin)
+			cmd.Env = append(os.Environ(), "HOME="+dir)
+			out, err := cmd.CombinedOutput()
+			got := "not listed"
+			if strings.TrimSpace(string(out)) == "dev" {
+				got = "listed"
+			} else if err != nil || strings.TrimSpace(string(out)) != "" {
+				got = "ERROR " + trunc(string(out), 200)
+			}
+			c.res.Eval("missing-approve\n"+req, true)
+			c.res.TracesVsImpl++
+			c.res.Count("corr:missing-approve.check")
+			c.res.Count("corr-outcome:missing-approve.check:" + got)
+			if got != want {
+				c.res.Disagree("missing-approve.check", corrCase{Stream: "missing-approve", Req: js}, got, want+" ("+verdict+")")
+			}
+		}
+		// do-approve's update of the status file on the same bytes
+		if readable == "1" && i%3 == 0 {
+			kind := Pick(c.rng, []string{"approve", "compare"})
+			flag := c.rng.Bool()
+			f := "0"
+			if flag {
+				f = "1"
+			}
+			req := strings.Join([]string{"statusset", kind, enc, "p1", f, fmt.Sprint(now)}, cUS)
+			c.check("status.Set", req, true, func() string {
+				if kind == "approve" {
+					status.SetApprove(cfg, "dev", "p1", flag)
+				} else {
+					status.SetCompare(cfg, "dev", "p1", flag)
+				}
+				return show()
+			}, nil)
+		}
+	}
+}
+
+func (c *corrCtx) runPanCycle(n int) {
+	names := []string{"g0", "g1", "g2", "g3", "a1", "a2", "any"}
+	for i := 0; i < n; i++ {
+		var enc, xml []string
+		ng := 1 + c.rng.Intn(4)
+		for j := 0; j < ng; j++ {
+			name := fmt.Sprintf("g%d", j)
+			if c.rng.Chance(10) {
+				name = "g0" // defined twice: the map keeps the last definition
+			}
+			var ms []string
+			for k := 0; k < c.rng.Intn(4); k++ {
+				m := Pick(c.rng, names)
+				if c.rng.Chance(60) {
+					// mostly towards later groups: acyclic
+					m = Pick(c.rng, []string{fmt.Sprintf("g%d", j+1), "a1", "a2"})
+				}
+				ms = append(ms, m)
+			}
+			enc = append(enc, name+cGS+strings.Join(ms, cGS))
+			x := `<entry name="` + name + `"><static>`
+			for _, m := range ms {
+				x += "<member>" + m + "</member>"
+			}
+			xml = append(xml, x+"</static></entry>")
+		}
+		doc := `<config><devices><entry name="d"><vsys><entry name="vsys1"><address-group>` + strings.Join(xml, "") + `</address-group></entry></vsys></entry></devices></config>`
+		req := "pancycle" + cUS + strings.Join(enc, cRS)
+		c.check("panos.checkGroupCycle", req, true, func() string {
+			if r := panos.VerifC20GroupCycle([]byte(doc)); r != "ok" {
+				return "DIAG:" + r
+			}
+			return ""
+		}, func(m string) string { return m })
+	}
+}
+
 func runCorr(ctx *Ctx, res *Result) {
 	c := &corrCtx{ctx: ctx, res: res, rng: ctx.Rng.Fork()}
 	c.drv = ctx.StartNadrv("c20")
@@ -1346,6 +1549,12 @@ func runCorr(ctx *Ctx, res *Result) {
 	c.runBanner(testdataLines(bases, "IOS"), ctx.N(300, 5000))
 	c.runMergeACL(ctx.N(400, 8000))
 	c.runRefs(ctx.N(400, 8000))
+	maBin := buildMissingApprove(ctx, res)
+	c.runStatus(ctx.N(600, 12000), maBin)
+	if maBin != "" {
+		os.RemoveAll(filepath.Dir(maBin))
+	}
+	c.runPanCycle(ctx.N(300, 6000))
 	res.Assumptions = append(res.Assumptions,
 		"correspondence inputs are ASCII (the models use ASCII white space for unicode.IsSpace); the correspondence compares the FIXED code (fixed = true); the snapshot behaviour (fixed = false) is tied by the replays of the counterexample inputs on the commits before the fixes, recorded in known/C20.jsonl")
 }
